@@ -28,10 +28,12 @@ vars == <<l, st, aux, mode, rej, stats>>
 
 Tags == {"Init.hs", "Init.forged", "Init.nil", "Init.free", "Write", "Write.dead", "Write.split", "Write.multi", "Write.zero",
          "Read", "Read.data", "Read.partial", "Read.zero", "Read.timeout", "Read.eof", "Read.error", "Read.alert", "Read.kuresp",
-         "Read.peek", "Read.sticky", "KeyUpdate", "Close", "Mutate", "Keystream", "Keystream.err", "KsLaw", "Nonce",
+         "Read.peek", "Read.sticky", "KeyUpdate", "Close", "Mutate", "Keystream", "Keystream.again", "Keystream.err", "KsLaw", "Nonce",
          "Ramp.grow", "Ramp.full", "Ramp.off", "Proc", "Enable", "Enable.again", "Init.weakforged"}
 
-NoKs == [has |-> FALSE, ep |-> 0, seq |-> 0, n |-> 0, ks |-> <<>>]
+\* the keystream queries a side has made at its current write position (epoch, seq), oldest first:
+\* qs[i] = [n |-> requested length, ks |-> bytes returned]; forgotten when the side writes a record
+NoKs == [has |-> FALSE, ep |-> 0, seq |-> 0, qs |-> <<>>]
 \* proc: the process-global suite table state (Record!ProcInit ...) of the harness process the events come from;
 \* it survives from scenario to scenario within one process history
 NoAux == [sc |-> 0, pat |-> [x \in Sides |-> <<0>>], run |-> 1, ks |-> [x \in Sides |-> NoKs], khist |-> {}, proc |-> ProcInit]
@@ -115,13 +117,14 @@ KsLawApplies(a, x, recs, hdrs) ==
   /\ a.ks[x].has /\ Len(recs) >= 1 /\ Len(hdrs) >= 1
   /\ recs[1].ep = a.ks[x].ep /\ recs[1].seq = a.ks[x].seq
   /\ Len(hdrs[1].b) > 0
-\* C28: keystream XOR next plaintext = ciphertext after the explicit nonce, for the first min(n, record) bytes
-KsLaw(a, q, x, off, recs, hdrs) ==
-  LET k == a.ks[x]
-      b == hdrs[1].b
-      cnt == Min(k.n, recs[1].lo) IN
+\* C28: keystream XOR next plaintext = ciphertext after the explicit nonce, for the first min(n, record) bytes;
+\* EVERY query made at this position is judged against the record that was then actually written
+KsLaw1(a, q, x, off, L1, b, k) ==
+  LET cnt == Min(k.n, L1) IN
   /\ Len(k.ks) >= cnt /\ Len(b) >= q.expl + cnt
   /\ \A i \in 1..cnt : (k.ks[i] ^^ StreamByte(a, x, off + i - 1)) = b[q.expl + i]
+KsLaw(a, q, x, off, recs, hdrs) ==
+  \A j \in 1..Len(a.ks[x].qs) : KsLaw1(a, q, x, off, recs[1].lo, hdrs[1].b, a.ks[x].qs[j])
 
 \* the records of this Write are exactly the ones dynamic record sizing prescribes from the ramp state the
 \* model has reached (conn.go maxPayloadSizeForWrite): same number, same ciphertext lengths
@@ -231,6 +234,8 @@ MutatedIndex(ev) == IF ev.kind = "trunc_keep" /\ ev.old = ev.nxt THEN ev.i + 1 E
 StepMutate(s, a, ev) == StepMutate1(s, a, ev, DoMutate(s, ev.x, MutatedIndex(ev)))
 
 Pre(ks, n) == SubSeq(ks, 1, Min(Min(n, Len(ks)), 32))
+SamePos(a, x, tok) == a.ks[x].has /\ a.ks[x].ep = tok.ep /\ a.ks[x].seq = tok.seq
+PrefixAgree(k1, k2) == \A i \in 1..Min(Min(k1.n, k2.n), Min(Len(k1.ks), Len(k2.ks))) : k1.ks[i] = k2.ks[i]
 StepKeystream1(s, a, ev, x, r, tok, me) ==
   IF ~r.ok THEN Bad("not-enabled", s, a)
   ELSE IF ErrClass(ev.err) # r.err THEN Bad("result", s, a)
@@ -245,8 +250,14 @@ StepKeystream1(s, a, ev, x, r, tok, me) ==
   ELSE IF \E e \in a.khist : e.x = x /\ (e.ep # me.ep \/ e.seq # me.seq) /\ Min(Len(e.pre), Len(me.pre)) >= 8
                              /\ SubSeq(e.pre, 1, Min(Len(e.pre), Len(me.pre))) = SubSeq(me.pre, 1, Min(Len(e.pre), Len(me.pre)))
        THEN Bad("keystream-reused", s, a)
-  ELSE Out("", s, [a EXCEPT !.ks[x] = [has |-> TRUE, ep |-> tok.ep, seq |-> tok.seq, n |-> ev.n, ks |-> ev.ks],
-                            !.khist = @ \cup {me}], {"Keystream"}, FALSE)
+  \* prefix law, on the full length: queries at one position return prefixes of one keystream (in whatever order
+  \* and with whatever lengths they were made)
+  ELSE IF SamePos(a, x, tok) /\ \E j \in 1..Len(a.ks[x].qs) : ~PrefixAgree(a.ks[x].qs[j], [n |-> ev.n, ks |-> ev.ks])
+       THEN Bad("keystream-prefix", s, a)
+  ELSE Out("", s, [a EXCEPT !.ks[x] = [has |-> TRUE, ep |-> tok.ep, seq |-> tok.seq,
+                                       qs |-> (IF SamePos(a, x, tok) THEN a.ks[x].qs ELSE <<>>) \o <<[n |-> ev.n, ks |-> ev.ks]>>],
+                            !.khist = @ \cup {me}],
+           {"Keystream"} \cup (IF SamePos(a, x, tok) THEN {"Keystream.again"} ELSE {}), FALSE)
 StepKeystream(s, a, ev) ==
   StepKeystream1(s, a, ev, ev.x, DoKeystream(s, ev.x), Keystream(s, ev.x),
                  [x |-> ev.x, ep |-> Keystream(s, ev.x).ep, seq |-> Keystream(s, ev.x).seq, n |-> ev.n, pre |-> Pre(ev.ks, ev.n)])
